@@ -343,3 +343,8 @@ from sa import dims as _dims  # noqa: E402
 
 RULES.append(Rule("C03.AX", _dims.make_rule("C03", "C03.AX"), floor=1,
                   doc="axis-extent agreement: coordinate components are bounded by the extent of their own axis (E13)"))
+
+from sa import exits as _exits  # noqa: E402
+
+RULES.append(Rule("C03.RX", _exits.make_rule("C03", "C03.RX", _exits.SCOPES["C03"]), floor=1,
+                  doc="rejection conditions: the anchored functions refuse inputs only under the conditions confirmed on the pinned tree (E16)"))
